@@ -542,6 +542,21 @@ func (self *Interpreter) memberExpression(node ast.AnalyzedMemberExpression) (*v
 		return nil, i
 	}
 
+	// `obj->key` looks a key of an any-object up (an option), `obj~>key` also unwraps it (like the VM does)
+	if node.Operator != pAst.DotMemberOperator {
+		field, found := (*base).(value.ValueAnyObject).FieldsInternal[node.Member.Ident()]
+		if node.Operator == pAst.ArrowMemberOperator {
+			if !found {
+				return value.NewNoneOption(), nil
+			}
+			return value.NewValueOption(field), nil
+		}
+		if !found {
+			return nil, value.NewThrowInterrupt(node.Span(), "Called 'unwrap' on a 'null' option value")
+		}
+		return field, nil
+	}
+
 	fields, i := (*base).Fields()
 	if i != nil {
 		return nil, i
